@@ -40,8 +40,15 @@ impl Manager {
         EcallTerminationPass::run(&mut cfg)?;
         FunctionMarkupPass::run(&mut cfg)?;
 
-        AvailableValuePass::run(&mut cfg)?;
-        EcallTerminationPass::run(&mut cfg)?;
+        // Cutting the edges behind an exit changes the values that reach the
+        // code after it, which can in turn identify further exits: repeat
+        // until the values are those of the final graph.
+        loop {
+            AvailableValuePass::run(&mut cfg)?;
+            if !EcallTerminationPass::terminate_exits(&mut cfg) {
+                break;
+            }
+        }
         // EliminateDeadCodeDirectionsPass::run(&mut cfg)?; // to eliminate ecall terminated code
         LivenessPass::run(&mut cfg)?;
         Ok(cfg)
